@@ -94,7 +94,7 @@ def run(R, only_cases=None):
         if loader in NAME_IGNORED:
             continue
         if loader == "FunctionNode" and proto == 0 and c.get("slot") != "v0content":
-            continue    # v0 audits content.module_path/function, the header name is only displayed
+            continue    # v0 audits, displays and self-checks content.module_path/function; the header name is not looked at
         if loader == "FunctionNode" and proto != 0 and c.get("slot") == "v0content":
             continue
         reported = c["name"] in r["gut"][3:].split(",")
